@@ -2,7 +2,7 @@
 //! oracles need. All call-backs of the crate under test (child poll / drop, upstream poll, task
 //! waker, probes) end up here.
 
-use crate::alloc::CbGuard;
+use crate::alloc::{vt, CbGuard};
 use serde::{Deserialize, Serialize};
 use std::cell::RefCell;
 use std::sync::Arc;
@@ -583,19 +583,19 @@ pub fn use_stashed(owner: Cid, which: usize, how: How) -> bool {
             match how {
                 How::ByRef => {
                     begin_invocation(slot, owner, "wake_by_ref");
-                    wk.wake_by_ref();
+                    vt(|| wk.wake_by_ref());
                     end_invocation();
                 }
                 How::CloneWake => {
-                    let c = wk.clone();
+                    let c = vt(|| wk.clone());
                     begin_invocation(slot, owner, "clone().wake()");
-                    c.wake();
+                    vt(|| c.wake());
                     end_invocation();
                 }
                 _ => {
                     w(|x| x.ev(|| format!("  clone+drop waker of child {owner}")));
-                    let c = wk.clone();
-                    drop(c);
+                    let c = vt(|| wk.clone());
+                    vt(|| drop(c));
                 }
             }
             w(|x| x.children[owner as usize].stash.push(wk));
@@ -604,13 +604,13 @@ pub fn use_stashed(owner: Cid, which: usize, how: How) -> bool {
             let wk = w(|x| x.children[owner as usize].stash.swap_remove(idx));
             let slot = wk.data() as usize;
             begin_invocation(slot, owner, "wake()");
-            wk.wake();
+            vt(|| wk.wake());
             end_invocation();
         }
         How::TakeDrop => {
             let wk = w(|x| x.children[owner as usize].stash.swap_remove(idx));
             w(|x| x.ev(|| format!("  drop stashed waker of child {owner}")));
-            drop(wk);
+            vt(|| drop(wk));
         }
     }
     true
@@ -712,7 +712,7 @@ pub fn run_action(a: Action) {
                                     Some(wk)
                                 }
                             });
-                            drop(back);
+                            vt(|| drop(back));
                         }
                     }
                     _ => {
@@ -738,7 +738,7 @@ pub fn clone_stashed(t: Cid) -> Option<Waker> {
         return None;
     }
     let wk = w(|x| x.children[t as usize].stash.swap_remove(0));
-    let c = wk.clone();
+    let c = vt(|| wk.clone());
     w(|x| x.children[t as usize].stash.push(wk));
     Some(c)
 }
